@@ -65,11 +65,12 @@ def eval_case(case, rng, thorough):
                 noise.append(scene.udp_noise(rng, rng.randrange(1, 6), k))
     merge_mode = rng.choice(MERGES)
     items = scene.merge(flows + noise, rng, merge_mode)
-    scene.stamp(items, rng, rng.choice(["plain", "dense", "edge-low"]))
+    scene.stamp(items, rng, rng.choice(["plain", "dense", "edge-low", "zero"]))        # zero: a relative capture clock, the first packet of the capture is stamped 0
+    xopts = rng.choice([[], [], ["-a"]]) if not soak else []                               # the same options for the merged and for every solo run
     order_hash = engine.subseed(tuple(it.conn for it in items)) & 0xFFFFFFFF
     keys = scene.keylog_text(flows + [f for f in noise if f.keylog], rng)
-    res, files, argv = e2e.run_capture(scene.capture(items), keys, cpu=600 if soak else 60)
-    out = {"cls": [min(n, 13), pattern, merge_mode, mix, "noise" if noise else "", "soak" if soak else ""],
+    res, files, argv = e2e.run_capture(scene.capture(items), keys, xopts, cpu=600 if soak else 60)
+    out = {"cls": [min(n, 13), pattern, merge_mode, mix, "noise" if noise else "", "soak" if soak else "", "+".join(xopts)],
            "tags": [f"order:{order_hash:08x}", f"pattern:{pattern}", f"merge:{merge_mode}", f"mix:{mix}"],
            "sample": {"case": case["id"], "connections": [f.label + " " + f.ep.describe() for f in flows][:12], "noise": [f.items[0].tag for f in noise], "merge": merge_mode,
                       "packets": len(items), "interleaving_head": [it.conn for it in items][:60]}}
@@ -84,7 +85,7 @@ def eval_case(case, rng, thorough):
     for k in range(0, real, step):
         fl = flows[k]
         solo_items = [it for it in items if it.conn == k]
-        r2, f2, _ = e2e.run_capture(scene.capture(solo_items), keys)
+        r2, f2, _ = e2e.run_capture(scene.capture(solo_items), keys, xopts)
         fail = e2e.run_failed(r2)
         if fail:
             if fail.startswith("INCONCLUSIVE"):
@@ -100,7 +101,7 @@ def eval_case(case, rng, thorough):
         if merged_pk != solo_pk:
             i = next((j for j in range(min(len(merged_pk), len(solo_pk))) if merged_pk[j] != solo_pk[j]), min(len(merged_pk), len(solo_pk)))
             msgs.append(f"connection {k} ({fl.label} {fl.ep.describe()}): {len(merged_pk)} packets in the merged export, {len(solo_pk)} when alone; first difference at packet {i}")
-        m = gen.check_flow_exact(a2, fl)
+        m = gen.check_flow_exact(a2, fl) if not xopts else None       # (with -a the export also holds handshake bytes: only merged == solo is judged)
         if m:
             msgs.append("solo run is itself not exact: " + m[0])
     if not soak and total != len(an.pkts) + 0 and not msgs:
